@@ -74,7 +74,7 @@ func constBig(v ssa.Value) (*big.Int, bool) {
 
 // lossyConv is shared by C02 and C08.
 func lossyConv(c *Ctx, prop string) {
-	c.R.Rule("lossy-conv", "every integer Convert in graphql.Unmarshal* / safeCast* whose target type cannot represent every value of the source type is edge-dominated by comparisons of the same value with constants that confine it to the target's range", 14)
+	c.R.Rule("lossy-conv", "every integer Convert in graphql.Unmarshal* / Marshal* / safeCast* (and their lower-case helpers) whose target type cannot represent every value of the source type is edge-dominated by comparisons of the same value with constants that confine it to the target's range", 14)
 	worlds := []struct {
 		arch  string
 		funcs []*ssa.Function
@@ -96,7 +96,7 @@ func lossyConv(c *Ctx, prop string) {
 	for _, w := range worlds {
 		for _, fn := range w.funcs {
 			top := topFn(fn)
-			if !(strings.HasPrefix(top.Name(), "Unmarshal") || strings.HasPrefix(top.Name(), "safeCast")) || top.Signature.Recv() != nil {
+			if top.Signature.Recv() != nil || !isScalarCodecName(top.Name()) {
 				continue
 			}
 			for _, b := range fn.Blocks {
@@ -182,6 +182,13 @@ func lossyConv(c *Ctx, prop string) {
 			}
 		}
 	}
+}
+
+// isScalarCodecName: the built-in scalar readers and writers of package graphql and their helpers (Unmarshal*, Marshal*,
+// unmarshal*/marshal* helpers, safeCast*).
+func isScalarCodecName(n string) bool {
+	l := strings.ToLower(n)
+	return strings.HasPrefix(l, "unmarshal") || strings.HasPrefix(l, "marshal") || strings.HasPrefix(l, "safecast")
 }
 
 func c02Gen(c *Ctx) {
